@@ -1472,7 +1472,8 @@ class C06(Check):
             "root_backup, root.old), relative paths with 0-6 '..' segments, globs crossing symlinked directories; root = the tree "
             "(80%) or '/' with prefixed paths (20%); 1-12 specs over all nine declarative factories + an in-memory "
             "DatasourceProvider, save_as in file and directory form; deny list of files, commands (exact or prefix + space) and "
-            "component names drawn from what the spec set touches, in 25% mixed with symbolic DefaultSpecs names at any position; "
+            "component names drawn from what the spec set touches, in 25% mixed with symbolic DefaultSpecs names at any position, "
+            "bare command names denied under files: and commands: at once; "
             "in 15% a layout history: after the collection a directory the specs read from becomes a link leaving the root and "
             "the SAME context object evaluates the spec set again; oracle = (a) no FileProvider whose real location is outside "
             "the root, (b) no open / Popen / executed command matching the deny list, (c) every write-open, mkdir, rename, "
@@ -1515,7 +1516,9 @@ class C11(Check):
             "metadata dump fails midway; (2) between collect and load any subset of entries is deleted, truncated at a seeded "
             "byte, replaced by non-JSON / empty / wrong-shape JSON, renamed to an unknown component, given an unknown provider "
             "type, or has its data file deleted / truncated, or an extra entry of an unknown component is added; oracle = strict "
-            "field-by-field round trip for untouched entries, 'may be absent, never wrong' for damaged ones, load never raises")
+            "field-by-field round trip for untouched entries, 'may be absent, never wrong' for damaged ones, load never raises; "
+            "histories: the archive directory used twice with shorter content (15% of fault-free mirror cases), the archive "
+            "loaded through a 'current' link that named a copy before (12%)")
     real_vs_stub = COMMON_REAL
     assumptions = [
         "content is valid Unicode without newline / carriage return inside a line and without lone surrogates (the property's own exclusion); the other characters str.splitlines() breaks at (FF, VT, NEL, FS, U+2028) ARE generated",
